@@ -341,8 +341,12 @@ func VH_relay() {
 	sc := &env.SymConn{D: D, MaxReads: vapi.Param("ROUNDS", 3), EOFWithData: vapi.Param("EOFDATA", 0) == 1 && vapi.Bool("eof-with-data")}
 	hc := &halfConn{SymConn: sc}
 	cx := layer4.WrapConnection(hc, nil, zap.NewNop())
-	layer4.VerifSetState(cx, B, 0, 0, false)
+	// the matching buffer is a pooled one, as in Server.handle, which gives it back when the handler returns
+	pooled := layer4.VerifBufPoolGet()
+	buf := append(pooled[:0], B...)
+	layer4.VerifSetState(cx, buf, 0, 0, false)
 	err := h.Handle(cx, nil)
+	layer4.VerifBufPoolPut(pooled)
 	vapi.Assert(err == nil, "Handle failed")
 	vapi.Cover("relayed")
 	want := append(append(make([]byte, 0, 16), B...), D...)
